@@ -740,7 +740,7 @@ func (st *state) applyDefaults(instancep reflect.Value, schema *Schema) (err err
 					if err := st.applyDefaults(lvalue, subschema); err != nil {
 						return err
 					}
-					instance.SetMapIndex(reflect.ValueOf(prop), lvalue.Elem())
+					instance.SetMapIndex(mapKey(instance, prop), lvalue.Elem())
 				} else if val.IsValid() {
 					// Recurse into an existing sub-instance.
 					// MapIndex returns a non-addressable value; copy into an addressable lvalue, recurse, then set back.
@@ -750,7 +750,7 @@ func (st *state) applyDefaults(instancep reflect.Value, schema *Schema) (err err
 					if err := st.applyDefaults(lvalue, subschema); err != nil {
 						return err
 					}
-					instance.SetMapIndex(reflect.ValueOf(prop), lvalue.Elem())
+					instance.SetMapIndex(mapKey(instance, prop), lvalue.Elem())
 				} else if schemaHasDefaultsInProperties(subschema) {
 					// Property is missing, but descendants still have some defaults
 					// Create an empty container and recurse to populate
@@ -770,7 +770,7 @@ func (st *state) applyDefaults(instancep reflect.Value, schema *Schema) (err err
 						if err := st.applyDefaults(lvalue, subschema); err != nil {
 							return err
 						}
-						instance.SetMapIndex(reflect.ValueOf(prop), lvalue.Elem())
+						instance.SetMapIndex(mapKey(instance, prop), lvalue.Elem())
 					}
 				}
 			case reflect.Struct:
@@ -812,7 +812,7 @@ func schemaHasDefaultsInProperties(s *Schema) bool {
 func property(v reflect.Value, name string) reflect.Value {
 	switch v.Kind() {
 	case reflect.Map:
-		return v.MapIndex(reflect.ValueOf(name))
+		return v.MapIndex(mapKey(v, name))
 	case reflect.Struct:
 		props := structPropertiesOf(v.Type())
 		// Ignore nonexistent properties.
@@ -823,6 +823,12 @@ func property(v reflect.Value, name string) reflect.Value {
 	default:
 		panic(fmt.Sprintf("property(%q): bad value %s of kind %s", name, v, v.Kind()))
 	}
+}
+
+// mapKey returns name as a key for the map m, whose key type must have kind string.
+// The key type may be a named type, so a plain string value is not always assignable.
+func mapKey(m reflect.Value, name string) reflect.Value {
+	return reflect.ValueOf(name).Convert(m.Type().Key())
 }
 
 // properties returns an iterator over the names and values of all properties
